@@ -24,6 +24,49 @@ def gen(r, i):
     return {"i": i, "kind": kind, "required": req, "src": L}
 
 
+def run_initvars(seed, budget, failures, hist, distinct):
+    """validators that take init variables (InitVar fields of the dataclass) as parameters, after / before a failing discarding validator: every runnable one
+    runs with the values of the datum (or the defaults), and nothing but a ValidationError comes out"""
+    from apischema import deserialize, ValidationError
+    r = random.Random(seed * 157 + 3); n = 0
+    src = ["from dataclasses import dataclass, field, InitVar", "from typing import *", "from apischema import validator, ValidationError", "LOG = []", ""]
+    specs = []
+    for i in range(20 * budget):
+        first_kind = r.choice(["field", "discard", "plain"])
+        deco = {"field": "@validator('a')", "discard": "@validator(discard='a')", "plain": "@validator"}[first_kind]
+        src += ["@dataclass", f"class IV{i}:", "    a: int", "    b: int = 0", "    limit: InitVar[int] = 10",
+                f"    {deco}", "    def first(self):", "        LOG.append('first')", "        if self.a == 13: yield 'thirteen'",
+                "    @validator", "    def second(self, limit: int):", "        LOG.append(('second', limit))", "        if self.b > limit: yield 'over'",
+                "    @validator", "    def third(self, limit: int):", "        LOG.append(('third', limit))", "        if self.a > limit * 100: yield 'far over'", ""]
+        specs.append((i, first_kind))
+    mod = build_module(src, f"aggval_iv_{seed}")
+    for i, fk in specs:
+        cls = getattr(mod, f"IV{i}")
+        for _ in range(6):
+            a = r.choice([1, 13, "bad", 5000]); b = r.choice([0, 50]); lim = r.choice([None, 100])
+            d = {"a": a, "b": b}
+            if lim is not None: d["limit"] = lim
+            L = lim if lim is not None else 10
+            n += 1; hist["initvar-validators:" + fk] += 1; distinct.add(case_hash("iv", fk, repr(d)))
+            mod.LOG.clear(); why = []
+            try: deserialize(cls, dict(d)); out = ("ok", [])
+            except ValidationError as e: out = ("invalid", sorted(x["err"] for x in e.errors))
+            except Exception as e: out = ("crash", type(e).__name__ + ":" + str(e)[:80]); why.append("crash:" + type(e).__name__)
+            if out[0] != "crash":
+                a_ok = a != "bad"; discarded = a_ok and a == 13 and fk in ("field", "discard")
+                want = []
+                if not a_ok: want.append("expected type integer, found string")
+                if a_ok and a == 13: want.append("thirteen")
+                if b > L: want.append("over")                                  # `second` depends on b only
+                if a_ok and not discarded and a > L * 100: want.append("far over")   # `third` depends on a
+                if sorted(want) != out[1]: why.append("errors-differ-from-the-runnable-validators")
+                if ("second", L) not in mod.LOG: why.append("runnable-validator-not-executed")
+            if why:
+                failures.append({"kind": "P", "part": "aggregate-validators", "features": ["validators", "initvar", fk], "src": [f"IV{i}: first validator is {fk}; second(self, limit) reads b; third(self, limit) reads a"],
+                                 "datum": repr(d), "outcome": list(out), "validators_run": [str(x) for x in mod.LOG], "why": sorted(set(why)), "k_ok": None})
+    return n
+
+
 def run_part(seed, budget):
     from apischema import deserialize, ValidationError
     r = random.Random(seed * 389 + 17)
@@ -57,4 +100,5 @@ def run_part(seed, budget):
             if why:
                 failures.append({"kind": "P", "part": "aggregate-validators", "features": ["aggregate", "validators", c["kind"]], "src": c["src"], "datum": repr(d), "outcome": list(out) if out[0] != "invalid" else ["invalid", out[1][:4]],
                                  "validators_run": ran, "why": sorted(set(why)), "k_ok": None})
+    n += run_initvars(seed, budget, failures, hist, distinct)
     return failures, n, distinct, hist
